@@ -223,9 +223,15 @@ def case_pipe(ctx, inp):
     if str(classic.dtype) != ans["lazy_dtype"]:
         ctx.fail("expression engine dtype differs from the classic engine", observed=ans["lazy_dtype"], expected=str(classic.dtype))
     if ans["opt_chunks"] != ans["lazy_chunks"]:
-        ctx.fail("optimized expression reports different chunks", observed=ans["opt_chunks"], expected=ans["lazy_chunks"])
+        sig = None
+        if any(0 in c for c in ans["lazy_chunks"]) and [[x for x in c if x] or [0] for c in ans["lazy_chunks"]] == ans["opt_chunks"]:
+            sig = "expr:elemwise-align:zero-length-chunk:lazy-chunks-differ"
+            ctx.branch("known: zero-length chunk dropped by alignment")
+        ctx.fail("optimized expression reports different chunks", sig=sig, observed=ans["opt_chunks"], expected=ans["lazy_chunks"])
     for op in sorted(set(_ops(prog))):
         ctx.branch("op=" + op)
+    if prog["op"] == "rechunk" or (prog["op"] == "reduce" and prog["a"]["op"] == "rechunk" and prog["a"]["a"]["op"] == "from_array"):
+        ctx.branch("multi-stage rechunk stream")
 
 
 def _ops(p):
@@ -357,7 +363,29 @@ def gen_pipe(ctx, n):
         yield "pipe", {"prog": prog}
 
 
+def gen_multistage(ctx, n):
+    """rechunks whose plan has several stages (the expression engine chains the stages itself)"""
+    from dask.array.rechunk import plan_rechunk
+    rng = ctx.rng
+    made = 0
+    for _ in range(n * 6):
+        if made >= n:
+            break
+        shape = tuple(rng.randint(3, 9) for _ in range(rng.randint(2, 3)))
+        c0, c1 = U.rand_chunks(rng, shape), U.rand_chunks(rng, shape)
+        if len(plan_rechunk(c0, c1, 8)) < 2:
+            continue
+        made += 1
+        data = [rng.randint(-4, 4) for _ in range(U.prod_shape(shape))]
+        prog = {"op": "rechunk", "chunks": [list(c) for c in c1],
+                "a": {"op": "from_array", "data": data, "shape": list(shape), "dtype": "int64", "chunks": [list(c) for c in c0]}}
+        if rng.random() < 0.5:
+            prog = {"op": "reduce", "fn": "sum", "axis": rng.randrange(len(shape)), "keepdims": False, "split_every": None, "a": prog}
+        yield "pipe", {"prog": prog}
+
+
 def generate(ctx):
+    yield from gen_multistage(ctx, ctx.n(25, 250))
     # the defect found while building this check (fixed): x + y with differently chunked operands
     yield "trace", {"prog": {"op": "binary", "fn": "add",
                              "a": {"op": "from_array", "data": [1, 2, 3, 4], "shape": [4], "dtype": "int64", "chunks": [[2, 2]]},
